@@ -15,7 +15,7 @@ from sarpy.io.xml.descriptors import FloatDescriptor, StringDescriptor, StringEn
     ParametersDescriptor, SerializableListDescriptor
 
 from .base import DEFAULT_STRICT, FLOAT_FORMAT
-from .utils import homogeneous_dtype
+from .utils import homogeneous_dtype, binary_format_string_to_dtype
 
 
 class SupportArrayCore(Serializable):
@@ -150,6 +150,10 @@ class SupportArrayCore(Serializable):
         depth: int
         """
 
+        raw_dtype = binary_format_string_to_dtype(self.ElementFormat)
+        if raw_dtype.names is not None and len({v[0] for v in raw_dtype.fields.values()}) > 1:
+            # NB: components of different types - each element is one structured item
+            return raw_dtype, 1
         return homogeneous_dtype(self.ElementFormat, return_length=True)
 
 
